@@ -8,6 +8,7 @@ import (
 	"net"
 	"path/filepath"
 	"sort"
+	"strconv"
 	"sync"
 	"sync/atomic"
 	"time"
@@ -578,7 +579,7 @@ func c16Churn(rng *rand.Rand, n int) []c16Case {
 
 // C16 — closing one end of a bridged TCP connection closes the other.
 func C16(r *core.Run) {
-	r.SetRule("harness TCP client -> real tcp-bridge-frontend -> real tcp-bridge-backend -> harness TCP server; per connection one peer closes first ({client, server} x {never used, idle after an exchange, its own data in flight, the other peer's data in flight, both} x sizes; full close, CloseWrite followed by close, abortive close (SetLinger(0) or Close with unread data), 4-16 MiB bursts closed at once towards a slow-reading peer, and a 32 MiB burst closed at once towards a peer that reads nothing for 14 s); 100 (thorough 500) short connections strictly one after the other through the same processes; 3000 (thorough 24000) rounds in which both peers of a connection close at nearly the same instant, then a liveness probe; websocket handshakes on the streaming path that the backend refuses (extensions offered, bad version, no key, foreign origin, POST) must leave no connection to the TCP server; the other peer must read end-of-stream within T=10s of (close, last byte of the data sent before the close); with both peers gone each bridge process' socket count (/proc/<pid>/fd) must be back at its idle baseline within T; a missed bound is re-run alone on a fresh pair of bridge processes before it is reported; class = (phase, who closes first, close kind, what is in flight, sizes)")
+	r.SetRule("harness TCP client -> real tcp-bridge-frontend -> real tcp-bridge-backend -> harness TCP server; per connection one peer closes first ({client, server} x {never used, idle after an exchange, its own data in flight, the other peer's data in flight, both} x sizes; full close, CloseWrite followed by close, abortive close (SetLinger(0) or Close with unread data), 4-16 MiB bursts closed at once towards a slow-reading peer, and a 32 MiB burst closed at once towards a peer that reads nothing for 14 s); 100 (thorough 500) short connections strictly one after the other through the same processes; 3000 (thorough 24000) rounds in which both peers of a connection close at nearly the same instant, then a liveness probe; three connections whose frontend->backend websocket handshake is held up for 7 s by a relay while the client writes and closes; websocket handshakes on the streaming path that the backend refuses (extensions offered, bad version, no key, foreign origin, POST) must leave no connection to the TCP server; the other peer must read end-of-stream within T=10s of (close, last byte of the data sent before the close); with both peers gone each bridge process' socket count (/proc/<pid>/fd) must be back at its idle baseline within T; a missed bound is re-run alone on a fresh pair of bridge processes before it is reported; class = (phase, who closes first, close kind, what is in flight, sizes)")
 	r.Assume("a half close (CloseWrite) is only observed; the verdict is taken after the same peer has fully closed")
 	r.Assume("completeness of the data sent before the close is judged only for a graceful close by a peer that had nothing unread (never used / idle / own data in flight, including the slow-reader bursts); for abortive closes only the propagation of the close and the release of the sockets are judged: closing a TCP socket with unread data resets the connection and may discard the closer's own data even without a bridge")
 	bins := bridgeBuild(r)
@@ -623,6 +624,19 @@ func C16(r *core.Run) {
 			live.Add(-1)
 		}()
 	}
+	// websocket handshakes that take 7 s: on processes of their own, alongside everything else
+	type shRes struct {
+		held   int
+		leaked bool
+		detail map[string]interface{}
+		err    error
+	}
+	shDone := make(chan shRes, 1)
+	go func() {
+		var x shRes
+		x.held, x.leaked, x.detail, x.err = c16SlowHandshake(r, bins, "-slowhs0", true)
+		shDone <- x
+	}()
 	// the stalled-reader connections run alongside everything else
 	var stallWG sync.WaitGroup
 	for i := nSlow; i < len(cases); i++ {
@@ -915,6 +929,28 @@ func C16(r *core.Run) {
 			}
 			if leaked {
 				r.Violate("C16:sockets-leaked:server-unreachable", fmt.Sprintf("connections to an unreachable TCP server are not released after the clients left: %v", detail), nil, detail)
+			}
+		}
+	}
+
+	// ---- slow websocket handshakes: whatever the frontend decides meanwhile, once the clients are gone
+	// and the handshake is over, the TCP server must not be left with a connection that never ends
+	if sh := <-shDone; sh.err != nil {
+		r.Broken("slow-handshake topology: " + sh.err.Error())
+	} else if sh.held > 0 || sh.leaked {
+		held, leaked, detail, err := c16SlowHandshake(r, bins, "-slowhs1", false)
+		switch {
+		case err != nil:
+			r.Broken("slow-handshake topology: " + err.Error())
+		case held == 0 && !leaked:
+			r.Inconclusive("slow-handshake phase missed its bound once but not when repeated on fresh processes")
+		default:
+			both := map[string]interface{}{"first": sh.detail, "second": detail}
+			if held > 0 {
+				r.Violate("C16:connection-outlives-endpoints:slow-websocket-handshake", fmt.Sprintf("the websocket handshake between frontend and backend took 7 s; the TCP clients wrote and closed meanwhile; %s after the handshake had gone through %d connection(s) at the TCP server had still not seen end-of-stream (repeated on fresh processes)", c16Bound, held), nil, both)
+			}
+			if leaked {
+				r.Violate("C16:sockets-leaked:slow-websocket-handshake", fmt.Sprintf("after slow websocket handshakes whose clients are long gone the bridge processes do not return to their idle socket counts within %s: %v", c16Bound, detail), nil, both)
 			}
 		}
 	}
@@ -1325,4 +1361,172 @@ func c16SimClose(r *core.Run, bins bridgeBins, suffix string, rounds, workers in
 	}
 	judgeProcs(r, true, topo.Front, topo.Back)
 	return out
+}
+
+// c16SlowHandshake puts a TCP relay between a fresh frontend and a fresh backend
+// that holds back the backend's first bytes (the answer to the websocket upgrade)
+// for 7 s. Three clients connect to the frontend, write (or not) and close while
+// the handshake is pending. Once the handshakes have gone through and the clients
+// are gone, every connection the TCP server accepted must see end-of-stream within
+// the bound (with or without the client's bytes before it), and both processes
+// must be back at their idle socket counts.
+func c16SlowHandshake(r *core.Run, bins bridgeBins, suffix string, count bool) (held int, leaked bool, detail map[string]interface{}, err error) {
+	const delay = 7 * time.Second
+	type accepted struct {
+		eos  atomic.Bool
+		recv atomic.Int64
+	}
+	var mu sync.Mutex
+	var accs []*accepted
+	var stop atomic.Bool
+	srv, err := bridgeNewTCPServer(func(c *net.TCPConn, _ int) {
+		defer c.Close()
+		a := &accepted{}
+		mu.Lock()
+		accs = append(accs, a)
+		mu.Unlock()
+		buf := make([]byte, 4096)
+		for !stop.Load() {
+			c.SetReadDeadline(time.Now().Add(100 * time.Millisecond))
+			n, err := c.Read(buf)
+			a.recv.Add(int64(n))
+			if err != nil && !bridgeIsTimeout(err) {
+				a.eos.Store(true)
+				return
+			}
+		}
+	})
+	if err != nil {
+		return 0, false, nil, err
+	}
+	defer srv.Close()
+	defer stop.Store(true)
+	back, bp, err := bridgeStartProc(r, "bridge-backend"+suffix, bins.Back, func(port int) []string {
+		return []string{"-frontend-port", strconv.Itoa(port), "-backend-port", strconv.Itoa(srv.Port)}
+	})
+	if err != nil {
+		return 0, false, nil, err
+	}
+	defer back.Kill()
+	// the relay
+	rl, err := net.Listen("tcp", "127.0.0.1:0")
+	if err != nil {
+		return 0, false, nil, err
+	}
+	defer rl.Close()
+	var released []time.Time
+	var relayed atomic.Int64
+	go func() {
+		for {
+			fc, err := rl.Accept()
+			if err != nil {
+				return
+			}
+			relayed.Add(1)
+			go func(fc net.Conn) {
+				t0 := time.Now()
+				bc, err := net.DialTimeout("tcp", fmt.Sprintf("127.0.0.1:%d", bp), 5*time.Second)
+				if err != nil {
+					fc.Close()
+					return
+				}
+				var once sync.Once
+				closeBoth := func() { once.Do(func() { fc.Close(); bc.Close() }) }
+				go func() { defer closeBoth(); io.Copy(bc, fc) }()
+				defer closeBoth()
+				buf := make([]byte, 32<<10)
+				n, err := bc.Read(buf) // the answer to the upgrade request
+				if n > 0 {
+					time.Sleep(time.Until(t0.Add(delay)))
+					mu.Lock()
+					released = append(released, time.Now())
+					mu.Unlock()
+					if _, werr := fc.Write(buf[:n]); werr != nil {
+						return
+					}
+				}
+				if err == nil {
+					io.Copy(fc, bc)
+				}
+			}(fc)
+		}
+	}()
+	front, fp, err := bridgeStartProc(r, "bridge-frontend"+suffix, bins.Front, func(port int) []string {
+		return []string{"-frontend-port", strconv.Itoa(port), "-backend", "ws://" + rl.Addr().String()}
+	})
+	if err != nil {
+		return 0, false, nil, err
+	}
+	defer front.Kill()
+	fBase, bBase := bridgeSockets(front.Cmd.Process.Pid), bridgeSockets(back.Cmd.Process.Pid)
+	clients := []struct {
+		name    string
+		write   int
+		closeAt time.Duration
+	}{{"writes-then-closes-at-1s", 5, time.Second}, {"closes-at-once", 0, 0}, {"writes-then-closes-at-6s", 3000, 6 * time.Second}}
+	var wg sync.WaitGroup
+	t0 := time.Now()
+	for _, cl := range clients {
+		if count {
+			r.Cases("slow-websocket-handshake|client-"+cl.name, 1)
+		}
+		c, derr := net.DialTimeout("tcp", fmt.Sprintf("127.0.0.1:%d", fp), 5*time.Second)
+		if derr != nil {
+			return 0, false, nil, derr
+		}
+		wg.Add(1)
+		go func(c net.Conn, write int, closeAt time.Duration) {
+			defer wg.Done()
+			if write > 0 {
+				c.SetWriteDeadline(time.Now().Add(5 * time.Second))
+				c.Write(tokBytes("slowhs", "x", write))
+			}
+			time.Sleep(time.Until(t0.Add(closeAt)))
+			c.Close()
+		}(c, cl.write, cl.closeAt)
+	}
+	wg.Wait() // every client is gone (6 s)
+	// wait for the handshakes to be let through (7 s), bounded
+	for time.Since(t0) < delay+5*time.Second {
+		mu.Lock()
+		n := len(released)
+		mu.Unlock()
+		if n >= len(clients) {
+			break
+		}
+		time.Sleep(20 * time.Millisecond)
+	}
+	base := time.Now() // clients gone, handshakes over: the bound runs from here
+	time.Sleep(200 * time.Millisecond)
+	var f, b, n int
+	var got []int64
+	for {
+		held, got = 0, nil
+		mu.Lock()
+		n = len(accs)
+		for _, a := range accs {
+			if !a.eos.Load() {
+				held++
+			}
+			got = append(got, a.recv.Load())
+		}
+		mu.Unlock()
+		f, b = bridgeSockets(front.Cmd.Process.Pid), bridgeSockets(back.Cmd.Process.Pid)
+		leaked = f > fBase || b > bBase
+		if (held == 0 && !leaked) || time.Since(base) > c16Bound {
+			break
+		}
+		time.Sleep(50 * time.Millisecond)
+	}
+	mu.Lock()
+	nrel := len(released)
+	mu.Unlock()
+	detail = map[string]interface{}{"handshakes_relayed": relayed.Load(), "handshake_answers_released_after_7s": nrel,
+		"connections_at_tcp_server": n, "of_those_without_end_of_stream": held, "bytes_each_received": got,
+		"sockets_frontend": f, "idle_frontend": fBase, "sockets_backend": b, "idle_backend": bBase}
+	if count {
+		r.Set("slow_handshake_phase", detail)
+	}
+	judgeProcs(r, true, front, back)
+	return held, leaked, detail, nil
 }
